@@ -17,20 +17,29 @@ def case_group_validity(case):
     members = []
     kinds = []
     for j in range(n):
-        k = r.choice(["ok", "fail_cond", "fail_always", "error", "norun", "stop", "fail_all"])
+        k = r.choice(["ok", "fail_cond", "fail_always", "error", "norun", "stop", "fail_all", "escape"])
         kinds.append(k)
         members.append({"ok": "$[*][yes()]", "fail_cond": "$[1*][#n == 3 -> fail()]", "fail_always": "$[1*][fail()]",
                         "error": "$[1*][add(#a, 1)]", "norun": "~ run-mode: no-run ~ $[*][yes()]", "stop": "$[*][stop(#n == 2)]",
-                        "fail_all": "$[1*][#n == 4 -> fail_all()]"}[k])
+                        "fail_all": "$[1*][#n == 4 -> fail_all()]",
+                        # an error that leaves the csvpath itself (collect() names a column the file does not have): the CsvPaths handles
+                        # it — under the member's error policy (ErrorCommsManager takes the csvpath's policy when it is given the csvpath)
+                        "escape": "$[*][yes() collect(7)]"}[k])
     pol = r.choice([["collect"], ["collect", "fail"], ["fail"]])
+    gpol = r.choice([["collect"], ["collect"], ["collect", "fail"], ["fail"]])
     method = r.choice(RG.METHODS)
-    cp = RG.new_csvpaths(policy=["collect"], csvpath_policy=pol)
+    cp = RG.new_csvpaths(policy=gpol, csvpath_policy=pol)
     RG.setup_group(cp, "grp", members, "food", recs)
     caller, mobs, raised = RG.run_group(cp, "grp", "food", method)
-    res = {"case": {"members": members, "kinds": kinds, "policy": pol, "method": method, "recs": recs}, "oracle": [],
+    res = {"case": {"members": members, "kinds": kinds, "policy": pol, "group_policy": gpol, "method": method, "recs": recs}, "oracle": [],
            "nontrivial": len(set(kinds)) > 1}
     if raised:
         res["oracle"].append({"what": f"group run raised {raised}"})
+        return res
+    if "escape" in kinds and method.endswith("by_line"):
+        # an error outside the match components ends a breadth-first run for every member (C18's abort cases judge what is left);
+        # members that never tracked a line are the known finding result-valid-needs-start
+        res["nontrivial"] = False
         return res
     verdicts = [m["valid"] for m in mobs]
     # each member's own verdict: False exactly when it failed the file
@@ -41,7 +50,9 @@ def case_group_validity(case):
     for j, k in enumerate(kinds):
         has3 = any(rec[1] == "3" for rec in recs[1:])
         want = {"ok": True, "fail_cond": not has3, "fail_always": False, "error": not ("fail" in pol), "norun": True, "stop": True,
-                "fail_all": first4 is None}[k]
+                "fail_all": first4 is None, "escape": not ("fail" in pol)}[k]   # (handled under the csvpath's own policy)
+        if k == "escape" and by_line:
+            continue        # (how a breadth-first run treats an error outside the match components is judged by C18's abort cases)
         if k == "error" and all(rec[0].isdigit() for rec in recs[1:]):
             want = True
         if callers and j not in callers:
